@@ -43,6 +43,11 @@ def elem_predicate_ok(lam, comp_is_param):
 
 
 # ------------------------------------------------------------------------------- C11.a
+ALT_ALGO = {
+    # after the length guard and the advance by size - n both sequences have the same length: the 4-iterator
+    # std::equal is the same question as std::mismatch(...).second == end(elements)
+    I + "ends_with_range_checker::operator()": ("std::equal", 5),
+}
 ALGO = {
     I + "range_all_of_checker::operator()": ("std::all_of", 3),
     I + "range_none_of_checker::operator()": ("std::none_of", 3),
@@ -127,6 +132,8 @@ def c11a(ctx, tu):
                 ctx.ob("C11.a", name, None, pattern=fn.pat, unit=tu.name, inst=fn.q,
                        detail="neither the standard algorithm nor a loop over the range was recognised")
                 continue
+            if len(calls) == 1 and name in ALT_ALGO and qe(calls[0]) == ALT_ALGO[name][0]:
+                algo, nargs = ALT_ALGO[name]
             ok = len(calls) == 1 and qe(calls[0]) == algo and len(calls[0]["args"]) == nargs
             why = "%s must be implemented by %s over the whole range (%d-argument form)" % (name.split("::")[2], algo, nargs)
             if ok:
@@ -433,6 +440,19 @@ def c11d(ctx, tu):
     # make_predicate_matcher: matcher first, value second
     for fn in tu.find(I + "make_predicate_matcher"):
         lams = lambdas_in(tu, fn)
+        if not lams:
+            # a named function object instead of a closure: the call operators of the library classes it constructs
+            types = set()
+            for b, e in fn.events():
+                for key in ("args", "x", "init"):
+                    for t in lib.subtrees(e.get(key)):
+                        if t[:1] in (["ctor"], ["initlist"]) and len(t) > 2 and isinstance(t[1 if t[0] == "initlist" else 2], str):
+                            types.add(erase(t[1 if t[0] == "initlist" else 2]))
+                if e["e"] == "ctor":
+                    types.add(erase(e.get("type") or ""))
+            for cq in types:
+                if cq.startswith("trompeloeil::"):
+                    lams += [f for f in tu.find(cq + "::operator()")]
         ok = len(lams) >= 1 and all(elem_predicate_ok(l, False) for l in lams)
         ctx.ob("C11.d.pred", I + "make_predicate_matcher", ok, pattern=fn.pat, unit=tu.name, inst=fn.q,
                detail="" if ok else "a pending matcher must be param_matches(matcher, std::ref(value))")
@@ -448,12 +468,25 @@ def c11e(ctx, tu):
         for fn in tu.find(name):
             n += 1
             k = len(fn.rec["params"]) - 1
-            ands = [e for b, e in fn.flow_events() if e["e"] == "assign" and e.get("rhs", [None, None])[:2] == ["b", "&&"]]
+            # the elements are offered to the matching step in their listed order, each exactly once: the element
+            # operand of every matching-step call (the fold's `match(element)`, or param_matches in a recursive /
+            # unrolled spelling that has been looked through) is parameter 1, 2, ... k
             idx = []
-            for a in ands:
-                m = re.findall(r"\['param', (\d+),", str(a["rhs"][3]))
-                idx.append(int(m[-1]) if m else None)
-            ok = idx == list(range(1, k + 1)) and all(a["rhs"][2][:1] == ["var"] and a["lhs"][:2] == a["rhs"][2][:2] for a in ands)
+            for b, e in fn.flow_events():
+                if e["e"] != "call":
+                    continue
+                nm = qe(e)
+                is_step = nm == "trompeloeil::param_matches" or (e.get("op") == "()" and ("(lambda" in nm or "(anonymous class)" in nm))
+                if not is_step:
+                    continue
+                m = sorted(set(int(x) for x in re.findall(r"\['param', (\d+),", str(e.get("args"))) if int(x) >= 1))
+                if len(m) == 1:
+                    idx.append(m[0])
+            if not idx:
+                ctx.ob("C11.e", name, None, pattern=fn.pat, unit=tu.name, inst=fn.q,
+                       detail="the per-element matching step was not recognised")
+                continue
+            ok = idx == list(range(1, k + 1))
             ctx.ob("C11.e", name, ok, pattern=fn.pat, unit=tu.name, inst=fn.q,
                    detail="" if ok else "every listed element must be matched, in order, against the next member of the "
                    "range (found parameter indices %s for %d elements)" % (idx, k))
